@@ -70,6 +70,11 @@ func arrOps() []arrOp {
 		{"0.5", func() *model.N { return num(0.5) }},
 		{`"x"`, func() *model.N { return model.Str("x") }},
 		{"nil", model.Nil},
+		{"1+1e-10", func() *model.N { return model.NumT("1.0000000001") }},
+		{"1-1e-10", func() *model.N { return model.NumT("0.9999999999") }},
+		{"-1e-10", func() *model.N { return model.Un("-", model.NumT("0.0000000001")) }},
+		{"0.1*3*10", func() *model.N { return model.Bin("*", model.Bin("*", model.NumT("0.1"), num(3)), num(10)) }},
+		{"next-above-1", func() *model.N { return model.NumT("1.0000000000000002") }},
 		{"2^31", func() *model.N { return num(2147483648) }},
 		{"NaN", func() *model.N {
 			inf := func() *model.N { return model.Grp(model.Bin("**", num(10), num(400))) }
@@ -131,8 +136,13 @@ func arrProgram(hist []int, ops []arrOp) []*model.N {
 	for i, o := range hist {
 		K := float64(100 * (i + 1))
 		prog = append(prog, ops[o].Mk(K)...)
-		prog = append(prog, arrObserve()...)
+		// every prefix of a history is a program of its own, observed in full at its end; on the way
+		// only a cheap observation is printed
+		if i < len(hist)-1 {
+			prog = append(prog, model.Print(model.Id("a")))
+		}
 	}
+	prog = append(prog, arrObserve()...)
 	for _, v := range arrVars {
 		prog = append(prog, model.ExprS(model.Id(v)))
 	}
